@@ -58,34 +58,41 @@ def wake (s : State) : State × Bool :=
   | some _ => ({ s with waiter := none }, true)
   | none => (s, false)
 
-/-- `poll_request` of a read (`chunks` non-empty iff `want > 0`: at most `want` bytes are popped),
-    with a task context.  Result: new state, bytes consumed, `will_wake`. -/
+/-- `poll_request` of a read in the `Receiving` state (`chunks` non-empty iff `want > 0`: at most
+    `want` bytes are popped), with a task context.  Result: new state, bytes consumed, `will_wake`. -/
+def pollReadReceiving (s : State) (lowWatermark want : Nat) : State × Nat × Bool :=
+  let enough := decide (len s ≥ min s.fcWatermark lowWatermark)
+  let take := if enough then min want (len s) else 0
+  -- "wake the request if we didn't consume anything" / "notify when we have at least the requested watermark"
+  let shouldWake := if enough then decide (want > 0) && decide (take = 0) else true
+  let s := { s with consumed := s.consumed + take }
+  -- "The client has consumed all data": `DataRead`, "clear the waiter" …
+  let s := if s.final == some s.consumed then { s with st := .dataRead, waiter := none } else s
+  -- … and only then `if should_wake { self.read_waiter = Some(..) }`
+  let s := if shouldWake then { s with waiter := some lowWatermark } else s
+  (s, take, shouldWake)
+
+/-- `poll_request` of a read -/
 def pollRead (s : State) (lowWatermark want : Nat) : State × Nat × Bool :=
   match s.st with
-  | .reset => ({ s with waiter := none }, 0, false)
-  | .stopping => ({ s with waiter := none }, 0, false)
-  | .dataRead => ({ s with waiter := none }, 0, false)
-  | .receiving =>
-    let enough := decide (len s ≥ min s.fcWatermark lowWatermark)
-    let take := if enough then min want (len s) else 0
-    -- "wake the request if we didn't consume anything" / "notify when we have at least the requested watermark"
-    let shouldWake := if enough then decide (want > 0) && decide (take = 0) else true
-    let s := { s with consumed := s.consumed + take }
-    let s := if s.final == some s.consumed then { s with st := .dataRead, waiter := none } else s
-    let s := if shouldWake then { s with waiter := some lowWatermark } else s
-    (s, take, shouldWake)
+  | .receiving => pollReadReceiving s lowWatermark want
+  | _ => ({ s with waiter := none }, 0, false)          -- `Err(error)` / `Finished`
+
+/-- the tail of `on_data` once the buffer has taken the frame: wake test, `DataRead` transition, wake -/
+def onDataCore (s : State) (isFin : Bool) : State × Bool :=
+  let shouldWake := match s.waiter with
+    | some lw => ready s lw
+    | none => false
+  -- "wake the waiter, even if we didn't cross the watermark, since the stream is finished at this point"
+  let shouldWake := shouldWake || allReceived s
+  let s := if isFin && s.final == some s.consumed then { s with st := .dataRead } else s
+  if shouldWake then wake s else (s, false)
 
 /-- `on_data`: the contiguous prefix grows to `newRecv`; `fin` = the frame carried the FIN with this final size -/
 def onData (s : State) (newRecv : Nat) (fin : Option Nat) : State × Bool :=
   match s.st with
   | .receiving =>
-    let s := { s with recv := max s.recv newRecv, final := if s.final.isSome then s.final else fin }
-    let shouldWake := match s.waiter with
-      | some lw => ready s lw
-      | none => false
-    let shouldWake := shouldWake || allReceived s
-    let s := if fin.isSome && s.final == some s.consumed then { s with st := .dataRead } else s
-    if shouldWake then wake s else (s, false)
+    onDataCore { s with recv := max s.recv newRecv, final := if s.final.isSome then s.final else fin } fin.isSome
   | _ => (s, false)
 
 /-- `on_reset` (RESET_STREAM): `init_reset` then `wake` -/
@@ -214,38 +221,37 @@ deriving Repr, DecidableEq
 /-- `data_sender.finish()` -/
 def dsFinish (s : State) : State := if s.ds == .sending then { s with ds := .finishing false } else s
 
-/-- `poll_request`: new state and the number of bytes accepted.  (One chunk: it is accepted whole —
-    the buffer may overshoot its capacity, exactly as in the code — or not at all.) -/
-def pollRequest (s : State) (r : Req) : State × Nat :=
+/-- `poll_request` in the `Sending` stream state, for the requests other than `reset`: new state and
+    the number of bytes accepted.  (One chunk: it is accepted whole — the buffer may overshoot its
+    capacity, exactly as in the code — or not at all.) -/
+def pollSending (s : State) (r : Req) : State × Nat :=
   match r with
-  | .reset =>
+  | .send bytes =>
+    if bytes = 0 then (s, 0)                                  -- `poll_send` returns before issuing a request
+    else if s.ds != .sending then (s, 0)                      -- `validate_push`: `Err(send_after_finish)`
+    else if !canPush s then (storeWaker s false, 0)
+    else ({ s with enq := s.enq + bytes }, bytes)
+  | .sendReady =>
+    if s.ds != .sending then (s, 0)
+    else if !canPush s then (storeWaker s false, 0)
+    else (s, 0)
+  | .flush => if !isEmpty s then (storeWaker s true, 0) else (s, 0)
+  | .finish =>
+    -- no context: `store_waker!` stores nothing; "clear any previously registered waiters"
+    if s.ds == .finished then ({ s with waiter := none }, 0)
+    else ({ dsFinish s with waiter := none }, 0)
+  | .close =>
+    if s.ds == .finished then ({ s with waiter := none }, 0)
+    else (storeWaker (dsFinish s) true, 0)
+  | .reset => (s, 0)                                          -- handled by `pollRequest`
+
+/-- `poll_request` -/
+def pollRequest (s : State) (r : Req) : State × Nat :=
+  if r = .reset then
     -- `init_reset(LocalApplication)`; no flush: "clear any previously registered waiters"
     ({ (initReset s false).1 with waiter := none }, 0)
-  | _ =>
-  match s.st with
-  | .resetSent => ({ s with waiter := none }, 0)              -- `Err(error)`
-  | .resetAcknowledged => ({ s with waiter := none }, 0)
-  | .sending =>
-    match r with
-    | .send bytes =>
-      if bytes = 0 then (s, 0)                                  -- `poll_send` returns before issuing a request
-      else if s.ds != .sending then (s, 0)                      -- `validate_push`: `Err(send_after_finish)`
-      else if !canPush s then (storeWaker s false, 0)
-      else ({ s with enq := s.enq + bytes }, bytes)
-    | .sendReady =>
-      if s.ds != .sending then (s, 0)
-      else if !canPush s then (storeWaker s false, 0)
-      else (s, 0)
-    | .flush => if !isEmpty s then (storeWaker s true, 0) else (s, 0)
-    | .finish =>
-      match s.ds with
-      | .finished => ({ s with waiter := none }, 0)
-      | _ => ({ dsFinish s with waiter := none }, 0)
-    | .close =>
-      match s.ds with
-      | .finished => ({ s with waiter := none }, 0)
-      | _ => (storeWaker (dsFinish s) true, 0)
-    | .reset => (s, 0)
+  else if s.st = .sending then pollSending s r
+  else ({ s with waiter := none }, 0)                       -- `Err(error)`: the stream was reset
 
 /-- `on_packet_ack`: `released` bytes leave the send buffer, `finAck` = the ACK covers the FIN,
     `resetAck` = it covers the RESET_STREAM frame -/
